@@ -205,3 +205,8 @@ def internal_telegrams_never_reach_the_interface(q, t):
         assert tr == [("interface", t), ("devices", t), ("callbacks", t)]
     else:
         assert tr == [("interface", t)]
+
+
+ASSUMPTIONS = [
+    "asyncio is trusted behind the contract stubs: a cancelled task/future does not continue, asyncio.timeout cancels what it guards, locks are mutually exclusive, queues are FIFO, tasks switch only at awaits; interleavings inside one await are represented by 'the awaited object completes with any admissible value, times out, or the connection closes'",
+]
